@@ -1183,6 +1183,7 @@ func (t *fnTrans) recv(in *ssa.UnOp) {
 		ok := t.c.declare(t.c.fresh(in.Name()+".ok"), "Bool")
 		v := t.freshOf(in.Name()+".v", elem)
 		t.vals[in] = []string{v, ok}
+		t.assume(implies(not(ok), eq(v, t.g.zero(t.c, elem))))
 		t.ownRecvHook(in, v, elem)
 		t.elemInvAssume(in.X, v, elem, ok)
 		return
@@ -1230,6 +1231,8 @@ func (t *fnTrans) selectInstr(in *ssa.Select) {
 			elem := st.Chan.Type().Underlying().(*types.Chan).Elem()
 			v := t.freshOf(fmt.Sprintf("%s.r%d", in.Name(), k), elem)
 			out = append(out, v)
+			// a receive from a closed channel yields the zero value
+			t.assume(implies(and(fired, not(recvOk)), eq(v, t.g.zero(t.c, elem))))
 			t.ownRecvHookIf(in, fired, v, elem)
 			if t.chanNeverClosed(st.Chan) {
 				t.elemInvAssume(st.Chan, v, elem, fired)
